@@ -22,6 +22,7 @@ import (
 	"context"
 	"database/sql"
 	"fmt"
+	"strings"
 	"time"
 
 	"github.com/cockroachdb/errors"
@@ -104,6 +105,14 @@ func (s *MySQLMetaStore) GetTaskCollectionPositionMetaStore(ctx context.Context)
 
 func (s *MySQLMetaStore) GetReplicateStore(ctx context.Context) api2.ReplicateStore {
 	return s.replicateStore
+}
+
+// escapeLikePattern makes the wildcard characters of s match themselves in a LIKE pattern
+// that is used with ESCAPE '|', like the '_' in a root path
+func escapeLikePattern(s string) string {
+	s = strings.ReplaceAll(s, "|", "||")
+	s = strings.ReplaceAll(s, "%", "|%")
+	return strings.ReplaceAll(s, "_", "|_")
 }
 
 func (s *MySQLMetaStore) Txn(ctx context.Context) (any, func(err error) error, error) {
@@ -214,7 +223,7 @@ func (m *TaskInfoMysqlStore) Put(ctx context.Context, metaObj *meta.TaskInfo, tx
 }
 
 func (m *TaskInfoMysqlStore) Get(ctx context.Context, metaObj *meta.TaskInfo, txn any) ([]*meta.TaskInfo, error) {
-	sqlStr := fmt.Sprintf("SELECT task_info_value FROM task_info WHERE task_info_key LIKE '%s%%'", getTaskInfoPrefix(m.rootPath))
+	sqlStr := fmt.Sprintf("SELECT task_info_value FROM task_info WHERE task_info_key LIKE '%s%%' ESCAPE '|'", escapeLikePattern(getTaskInfoPrefix(m.rootPath)))
 	var sqlArgs []any
 	if metaObj.TaskID != "" {
 		sqlStr += " AND task_id = ?"
@@ -396,7 +405,7 @@ func (m *TaskCollectionPositionMysqlStore) Put(ctx context.Context, metaObj *met
 }
 
 func (m *TaskCollectionPositionMysqlStore) Get(ctx context.Context, metaObj *meta.TaskCollectionPosition, txn any) ([]*meta.TaskCollectionPosition, error) {
-	sqlStr := fmt.Sprintf("SELECT task_id, collection_id, collection_name, task_position_value, op_position_value, target_position_value FROM task_position WHERE task_position_key LIKE '%s%%'", getTaskCollectionPositionPrefix(m.rootPath))
+	sqlStr := fmt.Sprintf("SELECT task_id, collection_id, collection_name, task_position_value, op_position_value, target_position_value FROM task_position WHERE task_position_key LIKE '%s%%' ESCAPE '|'", escapeLikePattern(getTaskCollectionPositionPrefix(m.rootPath)))
 	var sqlArgs []any
 	if metaObj.TaskID != "" || metaObj.CollectionID != 0 {
 		if metaObj.TaskID != "" {
